@@ -89,8 +89,19 @@ def r1(ctx):
         from engine.astutil import names_in
         from engine.repo import AnalysisError
         for iff in common.if_raises(f.node):
-            nm = names_in(inline(iff.test, env))
+            full = inline(iff.test, env)
+            nm = names_in(full)
             if mask_param in nm and ("plate_names" in nm or any("plate" in x for x in nm)):
+                # recognised-wrong: uniformity judged from neighbouring rows (x[1:] against x[:-1]); a plate's rows need not
+                # be contiguous, so a mixed plate whose rows are interleaved with another plate's is accepted
+                shifts = [U(x) for x in ast.walk(full) if isinstance(x, ast.Subscript) and isinstance(x.slice, ast.Slice) and x.slice.step is None
+                          and ((x.slice.lower is not None and U(x.slice.lower) == "1" and x.slice.upper is None) or (x.slice.lower is None and x.slice.upper is not None and U(x.slice.upper) == "-1"))
+                          and U(x.value) in (mask_param, "plate_names")]
+                if any(mask_param in s_ for s_ in shifts) and any("plate_names" in s_ for s_ in shifts):
+                    ctx.check("R1", f"{f.site()}::uniformity-guard", False, "",
+                              f"plate uniformity is judged by comparing neighbouring rows only ({sorted(set(shifts))[:4]}): a plate whose rows are not "
+                              f"contiguous can mix observed and unobserved experiments without being refused")
+                    return
                 raise AnalysisError(f"Screen.__init__: a refusal involving `{mask_param}` and plate names exists but is "
                                     f"not in a recognised per-plate uniformity idiom: {U(iff.test)[:100]}")
     ctx.check("R1", f"{f.site()}::uniformity-guard", guard is not None,
